@@ -1,6 +1,7 @@
 package main
 
 import (
+	"os"
 	"fmt"
 	"sort"
 	"strings"
@@ -479,13 +480,24 @@ func (fr *Frame) onAcquire(id Term, write bool, pos token.Pos) {
 	} else {
 		fr.havocGuardedBy(obj, n, field, id)
 	}
-	for _, li := range fr.lockInvs(n, field) {
+	lis := fr.lockInvs(n, field)
+	var before *Obl
+	if len(lis) > 0 && fr.vc.lemma == nil && os.Getenv("GOVC_NOCALLCOVER") == "" {
+		p := fr.pos(pos)
+		before = fr.vc.coverRel(fmt.Sprintf("%s/cover.lock.before@%s#%s", relFuncName(fr.vc.fn), field, hash4(fr.vc.eng.srcLine(p))), p, fr.reach, nil)
+	}
+	for _, li := range lis {
 		t, err := fr.evalSpecAssume(li.Clause.Expr, fr.lockInvEnv(obj, n))
 		if err != nil {
 			fr.vc.specError(fr, li.Clause, err)
 			continue
 		}
 		fr.vc.assume(fr.reach, t)
+	}
+	if before != nil {
+		// vacuity guard: the monitor invariants assumed at the acquisition must not contradict what is known
+		p := fr.pos(pos)
+		fr.vc.coverRel(fmt.Sprintf("%s/cover.lock.after@%s#%s", relFuncName(fr.vc.fn), field, hash4(fr.vc.eng.srcLine(p))), p, fr.reach, before)
 	}
 }
 
@@ -595,6 +607,19 @@ func (fr *Frame) anchorAsserts(kind, what string, pos token.Pos, bind map[string
 			fr.vc.anchorHit = map[string]bool{}
 		}
 		fr.vc.anchorHit[fc.Key+"|assert|"+a] = true
+		if fr.vc.lemma == nil && os.Getenv("GOVC_NOCALLCOVER") == "" {
+			// vacuity guard: an anchored assertion states something only if its program point is reachable
+			claimed := false
+			for _, c := range fc.Asserts[a] {
+				if c.Kind != "forbid" && (fr.vc.prop == "" || hasProp(c.Props, fr.vc.prop)) {
+					claimed = true
+				}
+			}
+			if claimed {
+				p := fr.pos(pos)
+				fr.vc.coverRel(fmt.Sprintf("%s/cover.anchor@%s#%s", relFuncName(fr.vc.fn), strings.ReplaceAll(a, " ", "."), hash4(fr.vc.eng.srcLine(p))), p, fr.reach, nil)
+			}
+		}
 		for i, c := range fc.Asserts[a] {
 			env := own.specEnvAt(fr)
 			for k, v := range bind {
